@@ -47,6 +47,8 @@ def run_D(prop, tier):
     # double-counting identity behind "degrees sum to the total size" (C08)
     if prop in ("C01", "C02", "C03", "C04", "C08"):
         files.append("lean/Refine.lean")
+    if prop == "C18":
+        files.append("lean/Vsum.lean")     # monotonicity and sign laws of sum(d.values()) used by the contagion contract
     if prop == "C16":
         files.append("lean/Occ.lean")      # occ_update: the count of a node over the chain state after one position is replaced
     for f in files:
